@@ -487,6 +487,30 @@ pub fn c12(c: &mut Collector, seed: u64, shard: u64, nshards: u64, thorough: boo
             positions.push(EnginePos { label: "small-material-capture-mate", pos: p, history: vec![] });
         }
     }
+    // mates delivered by special moves: e.p. capture (also by a capturer pinned along its capture
+    // diagonal), castling, each promotion piece - constructed by the model's mate maker
+    {
+        let mut crafted = Vec::new();
+        let mut rng = Rng::new(mix3(seed, shard, 0x3A7E));
+        workload::special_mate_family(&mut rng, if thorough { 6000 } else { 700 }, &mut crafted);
+        for cr in crafted {
+            let mut p = cr.pre.clone();
+            for m in &cr.moves {
+                p = p.apply(*m);
+            }
+            let label: &'static str = match cr.family {
+                "ep-mate" => "ep-mate",
+                "ep-mate-pinned-capturer" => "ep-mate-pinned-capturer",
+                "castle-mate" => "castle-mate",
+                "promotion-mate-knight" => "promotion-mate-knight",
+                "promotion-mate-bishop" => "promotion-mate-bishop",
+                "promotion-mate-rook" => "promotion-mate-rook",
+                _ => "promotion-mate-queen",
+            };
+            c.tag(&format!("special-mate:{label}"));
+            positions.push(EnginePos { label, pos: p, history: vec![] });
+        }
+    }
     for (pi, ep) in positions.iter().enumerate() {
         if ep.label == "small-material-capture-mate" {
             c.tag("small-material-capture-mate");
